@@ -95,6 +95,7 @@ let beh_ = function
   | S [A "int"; z] -> BInt (z_of_int (int_ z))
   | S [A "str"; s] -> BStr (nat_ s)
   | S [A "recur"; k] -> BRecur (nat_ k)
+  | S [A "receven"; k] -> BRecEven (nat_ k)
   | _ -> failwith "beh"
 let node_ (x : sx) : nspec * nbeh =
   let f = lst x in
